@@ -969,6 +969,7 @@ Verdict ObjsEngine::execute(const Plan& plan, EventLog& log, Stats& st)
       }
       check_all(s.op.c_str());
       log.line("%d %s%s %016llx", i, s.op.c_str(), threw_lib ? "!" : "", (unsigned long long)pool_hash());
+      st.shape += s.op; st.shape += threw_lib ? "!" : ","; if (S[s.arg(0) % NSLOT].live) { st.shape += TN[S[s.arg(0) % NSLOT].m.t][0]; st.shape += (char)('0' + std::min<size_t>(9, S[s.arg(0) % NSLOT].m.d.size() ? 1 + S[s.arg(0) % NSLOT].m.d.size() / 8 : 0)); }
       st.add("ops");
     }
   } catch (const Fail& f) {
